@@ -11,7 +11,8 @@ History = list of [thread, cop]; cop (mirrors Wrap/CountInterp.v):
   ["seq", a, b]
   ["call", body]         decorated plain function whose body runs `body`
   ["with", body]         with profiler: body
-  ["catch", body]        try: body except Boom: pass
+  ["catch", body]        try: body except (Boom, SyntaxError): pass
+  ["run", via, form, body]  via run|runctx|runcall; form str|code|empty|bad (bad: text that does not compile)
   ["foreign", "acquire"|"release"]  another party takes / frees sys.monitoring PROFILER_ID
   ["obj", name, slot, n] (gnew/gnewr: generator yielding n times then returning/raising) operations on wrapped generator / coroutine / async generator objects
 """
@@ -48,6 +49,7 @@ class Rig:
             self.toolname = 'cProfile'
         self.out = None
         self.slots = {}
+        self.pending = []
         rig = self
 
         def call_body(body):
@@ -122,8 +124,10 @@ class Rig:
         elif k == 'catch':
             try:
                 self.interp(c[1])
-            except Boom:
+            except (Boom, SyntaxError):
                 pass
+        elif k == 'run':
+            self.run_stmt(c[1], c[2], c[3])
         elif k == 'obj':
             self.obj(c[1], c[2], c[3] if len(c) > 3 else 0)
         elif k == 'foreign':
@@ -134,6 +138,29 @@ class Rig:
                 mon.free_tool_id(mon.PROFILER_ID)
         else:
             raise RuntimeError('bad cop %r' % (c,))
+
+    def run_stmt(self, via, form, body):
+        """profiler.run(stmt) / .runctx(stmt, g, l) / .runcall(f, ...): the statement is a str or a
+        code object that executes `body`, the empty statement, or text that does not compile."""
+        import __main__
+        p = self.prof
+        if via == 'runcall':
+            p.runcall(self.interp, body)
+            return
+        self.pending.append(body)
+        text = {'str': '_c05_rig.interp(_c05_rig.pending.pop())', 'code': '_c05_rig.interp(_c05_rig.pending.pop())',
+                'empty': '', 'bad': '_c05_rig.interp(_c05_rig.pending.pop()'}[form]
+        cmd = compile(text, '<c05-statement>', 'exec') if form == 'code' else text
+        try:
+            if via == 'run':
+                __main__.__dict__['_c05_rig'] = self
+                p.run(cmd)
+            else:
+                p.runctx(cmd, {'_c05_rig': self}, {})
+        finally:
+            __main__.__dict__.pop('_c05_rig', None)
+            if form in ('empty', 'bad') and self.pending:
+                self.pending.pop()
 
     def obj(self, name, s, n):
         cur = self.slots.get(s)
@@ -233,7 +260,7 @@ class Rig:
         """one top-level operation: an exception leaving it is caught by the caller"""
         try:
             self.interp(c)
-        except Boom:
+        except (Boom, SyntaxError):
             pass
         except ValueError:
             self.out.append(-3)     # the tool id is taken: the operation raised
